@@ -30,8 +30,10 @@ CHECKS = {
              "hundreds of colour calls) is executed by real child interpreters under different PYTHONHASHSEED, ASLR "
              "off/on and heap shifts; exit status, exception class and stdout bytes of every execution of an item must "
              "agree across children and positions. Purity: tree fingerprints before/after comparisons that are "
-             "optionally cancelled by KeyboardInterrupt at the n-th clock read / stream write / engine step, and the "
-             "next diff must render identically.",
+             "optionally cancelled by KeyboardInterrupt at the n-th clock read / stream write / engine step or at an "
+             "arbitrary function entry inside graphtage, and the next diff must render identically. Every child runs the "
+             "same calls in its own order; items include type twins (1 / 1.0 / true), renamed-key dictionaries and "
+             "stdin inputs.",
         note="Trusted: stderr excluded; identical failures everywhere are not C07's subject; the harness never resets "
              "graphtage-mutated state inside a history; third-party native code is a black box.",
         technique="deterministic simulation: controlled hash seed / address layout / in-process call history in "
@@ -43,7 +45,9 @@ CHECKS = {
              "the monitor's own bounds() reads are scheduled events with per-run probability. Per object: intervals "
              "never widen, True means strictly shrunk, False means single value, the finally reached value lies in "
              "every interval shown, and the root converges within its initial width once the schedule stops. Matcher "
-             "and search are additionally run over simulated slow items.",
+             "and search are additionally run over simulated slow items. Document families: JSON-like, YAML-style, "
+             "XML, CSV, plist-wrapped, Python object graphs (pydiff); biased shapes incl. renamed-key dictionaries and "
+             "costs above 2**16.",
         note="Trusted: the monitor; 'False iff definitive before the call' is not demanded; PossibleEdits/search over "
              "real edits is outside the population; exceptions are C05's subject (aborted_other).",
         technique="deterministic simulation: seeded engine-call schedules with scheduled observations, per-object "
@@ -54,7 +58,9 @@ CHECKS = {
              "script and annotations; 2-4 simulated runs with seeded schedules of public edit-API calls (incl. "
              "suspended and resumed edits() iterators, quiet flips), printer configurations (quiet x colour x tty) and "
              "clock profiles, plus macro schedules (quiet diff(), get_all_edit_contexts, edited_cost, exhaustion "
-             "without bounds reads), must end with the same cost and script and must not raise.",
+             "without bounds reads, the real main() under every status flag), must end with the same cost and script, "
+             "must not raise, must list the same sub-edits after a suspended/resumed or a 'complete' listing, must answer "
+             "has_non_zero_cost() consistently with the final cost and must render (plain) like the reference.",
         note="Trusted: canonical serialisation as the meaning of 'same script'; hygiene between independent runs that "
              "share a worker process; pairs stay within one document family.",
         technique="deterministic simulation: seeded interleavings of the public edit API x printer/clock "
@@ -83,7 +89,8 @@ CHECKS = {
              "torn write at every byte offset, plus lost tail blocks, zero fill, bit flips, dropped/duplicated "
              "delimiters, unbalanced brackets/tags and compositions; files that every independent parser rejects go "
              "through the real main() in-process (simulated stdout/stderr/clock) as first or second file under every "
-             "type spelling and status setting; a seeded sample is re-run as a real subprocess and must agree.",
+             "type spelling and status setting; a seeded sample is re-run as a real `python -m graphtage` subprocess, "
+             "which must agree and is judged by the same oracle.",
         note="Trusted: the independent parsers (stdlib json, json5, PyYAML pure+C, pyexpat, plistlib + structural "
              "validator) as the definition of 'syntactically invalid'; HTML validity = well-formed XHTML; I/O errors "
              "are outside the property.",
